@@ -27,7 +27,7 @@ func init() {
 
 func mapProtocol(r *Run, prop string, idx int) *core.Report {
 	rep := core.NewReport(prop)
-	if !modelOK(r, rep, prop+".P0") {
+	if !modelOKFor(r, rep, prop+".P0", []string{"map0", "map1"}[idx]) {
 		return rep
 	}
 	mm := r.M.Maps[idx]
